@@ -163,9 +163,9 @@ def build_valid_crate(chk, pid, name, src, defs, total, stage):
 
 def c05_custom(pid, tier, seed, total, chk):
     """C05: generated valid programs x values, monitored by the suite compiled into them."""
-    crates = 1 if tier == "quick" else 6
+    crates = 1 if tier == "quick" else 10
     ndefs = 140 if tier == "quick" else 260
-    values = 400 if tier == "quick" else 3000
+    values = 400 if tier == "quick" else 6000
     programs = 0
     for k in range(crates):
         g = gen.Gen(seed * 1000 + k)
